@@ -19,7 +19,8 @@ SEEDED = "/verif/seeded"
 
 
 def sh(cmd, cwd=None, timeout=900):
-    r = subprocess.run(cmd, shell=True, cwd=cwd, capture_output=True, text=True, timeout=timeout)
+    env = dict(os.environ, XOVERIF_JOBS=os.environ.get("XOVERIF_JOBS", "3"))  # four patches run side by side: small worker pools
+    r = subprocess.run(cmd, shell=True, cwd=cwd, capture_output=True, text=True, timeout=timeout, env=env)
     return r.returncode, r.stdout + r.stderr
 
 
